@@ -181,6 +181,56 @@ def discover_locals(fn, DDLC, CDC, CB2):
     return N
 
 
+def calc_all_g_structure():
+    """loop structure of Phreeqc::calc_all_g (integrate.cpp): where the per-surface cache of integrated charge numbers (the local
+    std::map<LDBLE, cxxSurfDL>) is declared / cleared / looked up, as numbers of enclosing loops"""
+    cpp = os.path.join(vlib.REPO, "src/phreeqcpp/integrate.cpp")
+    objs = leaf._ast_objects(cpp, "calc_all_g")
+    leaf._annotate_files(objs, cpp)
+    defs = [o for o in objs if o.get("name") == "calc_all_g" and o.get("kind") in ("CXXMethodDecl", "FunctionDecl")
+            and any(c.get("kind") == "CompoundStmt" for c in o.get("inner", []))]
+    if len(defs) != 1:
+        raise LeafError("%d definitions of calc_all_g" % len(defs))
+    LOOPS = ("ForStmt", "WhileStmt", "DoStmt", "CXXForRangeStmt")
+    decls, finds, clears = [], [], []
+    ids = set()
+
+    def is_cache_type(t):
+        t = t.replace(" ", "")
+        return "map<" in t and "cxxSurfDL" in t and "iterator" not in t
+
+    def refers_to_cache(n):
+        if isinstance(n, dict):
+            if n.get("kind") == "DeclRefExpr" and n.get("referencedDecl", {}).get("id") in ids:
+                return True
+            return any(refers_to_cache(c) for c in n.get("inner", []) or [])
+        return False
+
+    def walk(n, depth):
+        if not isinstance(n, dict):
+            return
+        k = n.get("kind")
+        if k == "VarDecl" and is_cache_type(n.get("type", {}).get("qualType", "")):
+            decls.append(depth)
+            ids.add(n.get("id"))
+        if k == "CXXMemberCallExpr" and n.get("inner"):
+            callee = n["inner"][0]
+            if callee.get("kind") == "MemberExpr" and refers_to_cache(callee):
+                if callee.get("name") == "find":
+                    finds.append(depth)
+                elif callee.get("name") == "clear":
+                    clears.append(depth)
+        d2 = depth + 1 if k in LOOPS else depth
+        for c in n.get("inner", []) or []:
+            walk(c, d2)
+    walk(defs[0], 0)
+    if not decls or not finds:
+        raise LeafError("calc_all_g: cache declaration / lookup not found (decls %s, lookups %s)" % (decls, finds))
+    return ("Definition calc_all_g_cache_count : Z := %d.\nDefinition calc_all_g_cache_decl_loop_depth : Z := %d.\n"
+            "Definition calc_all_g_cache_lookup_loop_depth : Z := %d.\nDefinition calc_all_g_cache_cleared_in_surface_loop : bool := %s."
+            % (len(decls), decls[0], min(finds), "true" if 1 in clears else "false"))
+
+
 class _Refused:
     """placeholder for a leaf the translator refused: an unconstrained variable, so every theorem about it fails"""
     def __init__(self, name, err):
@@ -349,6 +399,12 @@ def _generate(errors):
     fi = load_function(os.path.join(vlib.REPO, "src/phreeqcpp/Phreeqc.cpp"), "init")
     add(fi, "c20_LOG_10", lhs="LOG_10", vars=[])
 
+    try:
+        extra.append(calc_all_g_structure())
+    except LeafError as ex:
+        errors.append("calc_all_g: %s" % ex)
+        extra.append("Definition calc_all_g_cache_count : Z := 0.\nDefinition calc_all_g_cache_decl_loop_depth : Z := -1.\n"
+                     "Definition calc_all_g_cache_lookup_loop_depth : Z := -1.\nDefinition calc_all_g_cache_cleared_in_surface_loop : bool := false.")
     hdr = "C20: Phreeqc::residuals (model.cpp), diff_layer_total (basicsubs.cpp), add_potential_factor / add_cd_music_factors (prep.cpp), gammas case 6"
     text = _emit(L, hdr, "From Coq Require Import ZArith.\n" + "\n".join(extra) + "\n")
     vlib.write_if_changed(os.path.join(vlib.COQ, "Gen", "Gen_C20_surface.v"), text)
